@@ -42,7 +42,7 @@ def rEv : List String → Option BlkSession.Ev
 def b01 (b : Bool) : String := if b then "1" else "0"
 
 def rState (s : BlkSession.State) : String :=
-  s!"buf={s.buffer.length} q={s.items.length} rd={b01 (s.wake > 0)} ready={b01 s.ready} live={b01 s.live} ubuf={s.ubuf.length} rq={s.rq.length} subs=[{String.intercalate "," ((BlkSession.sortBytes s.subs).map hex)}]"
+  s!"buf={s.buffer.length} q={s.items.length} rd={b01 (s.wake > 0)} ready={b01 s.ready} live={b01 s.live} ubuf={s.ubuf.length} rq={s.rq.length} subs=[{String.intercalate "," ((BlkSession.sortBytes s.subs).map hex)}] enq={s.enq.length}:{fnv1a s.enq.flatten} wire={s.wire.length}:{fnv1a s.wire}"
 
 def qEv : List String → Option (PollQueue.Ev Nat)
   | ["enq", x] => do some (.enq (← x.toNat?))
